@@ -219,6 +219,62 @@ def run_score(case):
     return ['listing [' + ','.join(items) + f'] duration {f8(d0)} {f8(d1)} {f8(d2)} refused {rejected}', int(round(base * 8)), ok]
 
 
+def run_appsched(case):
+    """the real `Scheduler` (AppClock's scheduler), driven directly with a stub clock and scripted
+    items: sched / sched_abs / advance to a time (which wakes everything due, in time order)"""
+    from sc3.base.clock import Scheduler
+    woke = []
+
+    class StubClock:
+        def secs2beats(self, s):
+            return s
+
+    class Item:
+        def __init__(self, t):
+            self.t, self.n = t, 0
+
+        def __awake__(self, clock):
+            n = self.n
+            self.n += 1
+            woke.append((sch.seconds, self.t))
+            if len(woke) > 400:
+                raise RuntimeError('runaway')
+            b = case.get('beh', {}).get(f'{self.t}:{n}')
+            if not b:
+                return None
+            for op in b[1]:
+                do(op)
+            return None if b[0] is None else b[0] / 8.0
+    sch = Scheduler(StubClock(), drift=False, recursive=bool(case.get('recursive')))
+    items = {}
+
+    def item(t):
+        if t not in items:
+            items[t] = Item(t)
+        return items[t]
+
+    def do(op):
+        if op[0] == 'sched':
+            sch.sched(op[1] / 8.0, item(op[2]))
+        elif op[0] == 'abs':
+            sch.sched_abs(op[1] / 8.0, item(op[2]))
+        elif op[0] == 'clear':
+            sch.clear()
+    out = []
+    for op in case['ops']:
+        try:
+            if op[0] == 'to':
+                del woke[:]
+                sch.seconds = op[1] / 8.0
+                out.append('woke ' + fmt_items(woke) + f' now {int(round(sch.seconds * 8))} empty {bool(sch.empty())}')
+            else:
+                do(op)
+                out.append('ok')
+        except Exception as e:
+            out.append(f'EXC:{type(e).__name__}')
+    return out
+
+
 def run_ppar(case):
     """the real Ppar over Pbind children with scripted deltas (k/8), consumed as a stream"""
     from sc3.seq.patterns.eventpatterns import Ppar, Pbind
@@ -270,6 +326,9 @@ def run(payload):
                 continue
             if c.get('kind') == 'ppar':
                 res.append(run_ppar(c))
+                continue
+            if c.get('kind') == 'appsched':
+                res.append(run_appsched(c))
                 continue
             res.append(run_shutdown(c))
         else:
